@@ -2,16 +2,16 @@
 # usage: tools/run_seeded.sh <ID> <patch.diff> [tier]  — runs ./check <ID> against a private copy of /repo with the patch applied
 # (used while other work is going on in /repo; the final confirmation applies the patch to /repo itself with git apply)
 set -e
-ID=$1; PATCH=$(realpath $2); TIER=${3:-quick}
+ID=$1; PATCH=$(realpath $2); TIER=${3:-quick}; TAG=${4:-$ID}
 D=$(mktemp -d /tmp/seedrepo.XXXXXX)
 cp -r /repo/cola $D/cola
 (cd $D && patch -p1 -s < $PATCH)
 cd /verif
 set +e
-COLA_SRC_ROOT=$D PYTHONPATH=$D ./check $ID $TIER > /verif/work/seeded_$ID.out 2>&1
+COLA_SRC_ROOT=$D PYTHONPATH=$D ./check $ID $TIER > /verif/work/seeded_$TAG.out 2>&1
 RC=$?
 set -e
-echo "rc=$RC violations=$(grep -c '^VIOLATION' /verif/work/seeded_$ID.out)"
-grep '^VIOLATION' /verif/work/seeded_$ID.out | head -3
+echo "rc=$RC violations=$(grep -c '^VIOLATION' /verif/work/seeded_$TAG.out)"
+grep '^VIOLATION' /verif/work/seeded_$TAG.out | head -3
 rm -rf $D
 exit 0
